@@ -439,3 +439,38 @@ Theorem C07_source_series2value : forall (d : string) (f : list (Z * string) -> 
   option_map (Gen.FnRangesInto.fn_series2value (zlen hits) d (first_value d hits))
              (if zlen hits <=? 1 then Some d else f hits).
 Proof. exact source_series2value. Qed.
+
+(* ==== LOOP TIES, wave e4 (tools/fnspecs/c07_e4.py) ====
+   intersect.by_shared_chroms and intersect.by_ranges, one iteration each translated from the source text on every run
+   (Gen/FnRangesShared.v, Gen/FnRangesByRanges.v): what a chromosome absent from the other table gets (keep_empty). *)
+From CNV Require Import Proofs.FnRangesShared Proofs.FnRangesByRanges.
+From CNV Require Gen.FnRangesShared Gen.FnRangesByRanges.
+
+(* by_shared_chroms, one iteration: the pair of row groups when the chromosome is in both tables, the table's group
+   with None when it is not and keep_empty, nothing otherwise *)
+Theorem C07_source_shared_step : forall (table other : list trow) (keep_empty : bool) (c : string),
+  py_shared_iter table other keep_empty c =
+  if has_chrom c other then [(c, of_chrom c table, Some (of_chrom c other))]
+  else if keep_empty then [(c, of_chrom c table, None)] else [].
+Proof. exact source_shared_step. Qed.
+
+(* ... and shared_groups IS that generated iteration over the table's chromosomes in order of first appearance *)
+Theorem C07_source_shared_groups : forall (table other : list trow) (keep_empty : bool),
+  shared_groups table other keep_empty = concat (map (py_shared_iter table other keep_empty) (chroms table)).
+Proof. exact source_shared_groups. Qed.
+
+(* by_ranges, one iteration: the bins paired with their selections, or one empty result per bin *)
+Theorem C07_source_by_ranges_step : forall (m : qmode) (keep_empty : bool) (c : string) (bins : list trow)
+    (src : option (list trow)),
+  py_by_ranges_iter m keep_empty (c, bins, src) =
+  match src with
+  | Some src_rows => combine bins (iter_ranges (map snd src_rows) (Some (starts_of bins)) (Some (ends_of bins)) m)
+  | None => if keep_empty then map (fun b => (b, [])) bins else []
+  end.
+Proof. exact source_by_ranges_step. Qed.
+
+(* ... and by_ranges IS that generated iteration over the groups of by_shared_chroms *)
+Theorem C07_source_by_ranges : forall (table other : list trow) (m : qmode) (keep_empty : bool),
+  by_ranges table other m keep_empty =
+  concat (map (py_by_ranges_iter m keep_empty) (by_shared_chroms other table keep_empty)).
+Proof. exact source_by_ranges. Qed.
